@@ -89,6 +89,12 @@ MUTANTS = [
     m("c13-scale-inplace-raw", ["C13"], R, "            self._pmin = np.minimum(pmin, pmax)\n            self._pmax = np.maximum(pmin, pmax)\n", "            self._pmin = pmin\n            self._pmax = pmax\n"),
     m("c13-scale-inplace-zero", ["C13"], R, "            if not np.all(pmax - pmin):\n", "            if False:\n",
       anchor="def scale(self, factor, reference_point=None, inplace=False):"),
+    m("c13-translate-complex-elements", ["C13"], R, "            if not isinstance(elem, numbers.Real):\n                raise TypeError(\n                    f\"Unsupported element {elem} of type {type(elem)} for translate.\"",
+      "            if not isinstance(elem, numbers.Number):\n                raise TypeError(\n                    f\"Unsupported element {elem} of type {type(elem)} for translate.\""),   # AF25 before its repair
+    m("c13-scale-complex-elements", ["C13"], R, "                if not isinstance(elem, numbers.Real):\n                    raise TypeError(\n                        f\"Unsupported element {elem} of type {type(elem)} for scale.\"",
+      "                if not isinstance(elem, numbers.Complex):\n                    raise TypeError(\n                        f\"Unsupported element {elem} of type {type(elem)} for scale.\""),
+    m("schema-tolerance-factor-builtin-types", ["C10", "C13", "C01"], R, "if not isinstance(tolerance_factor, numbers.Number):", "if not isinstance(tolerance_factor, (int, float)):"),
+    m("schema-nvdim-builtin-int", ["C02", "C08", "C10"], F, "if not isinstance(nvdim, numbers.Integral):", "if not isinstance(nvdim, int):"),
     m("c13-translate-one-corner", ["C13"], R, "pmax = np.add(self.pmax, vector)", "pmax = np.add(self.pmax, 0)"),
     m("c13-scale-about-pmin", ["C13"], R, "pmin = reference_point - (reference_point - self.pmin) * factor", "pmin = reference_point - (reference_point - self.pmin) / factor"),
     m("c13-mesh-scale-sub-own-centre", ["C13"], M, "sr.scale(factor, inplace=True, reference_point=sr_ref)", "sr.scale(factor, inplace=True, reference_point=reference_point)"),
